@@ -253,6 +253,10 @@ theorem pres_addLocal (name : String) : Pres m (addLocal name) := by
   unfold addLocal; pres
 macro_rules | `(tactic| pres_leaf) => `(tactic| with_reducible apply pres_addLocal)
 
+theorem pres_addHiddenLocal (name : String) : Pres m (addHiddenLocal name) := by
+  unfold addHiddenLocal; pres
+macro_rules | `(tactic| pres_leaf) => `(tactic| with_reducible apply pres_addHiddenLocal)
+
 theorem pres_markInitialisedAt (i : Nat) : Pres m (markInitialisedAt i) := by
   unfold markInitialisedAt; pres
 macro_rules | `(tactic| pres_leaf) => `(tactic| with_reducible apply pres_markInitialisedAt)
